@@ -51,6 +51,15 @@ def feed(lines: list[str]) -> tuple[Any, list, Any]:
 
 def bfs(alphabet: list[str], depth: int, on_transition: Callable[[list[str], list, Any], None], max_states: int = 200_000) -> dict:
     """Expand every distinct state once with every line of the alphabet, up to `depth` lines."""
+    info: dict = {}
+    for h, toks, err in iter_bfs(alphabet, depth, info, max_states):
+        on_transition(h, toks, err)
+    return info
+
+
+def iter_bfs(alphabet: list[str], depth: int, info: dict, max_states: int = 200_000):
+    """The same search as a generator: yields (line history, tokens, exception) for every transition, so that the
+    caller's watchdog sees each transition as one case; `info` is filled in when the search ends."""
     s0, _, _ = feed([])
     seen = {s0}
     frontier: list[list[str]] = [[]]
@@ -64,7 +73,9 @@ def bfs(alphabet: list[str], depth: int, on_transition: Callable[[list[str], lis
                 h = hist + [line]
                 s, toks, err = feed(h)
                 transitions += 1
-                on_transition(h, toks, err)
+                yield h, toks, err
+                if not line.endswith("\n"):
+                    continue  # an unterminated line can only be the last one readline returns
                 if s is not None and s not in seen:
                     if len(seen) >= max_states:
                         capped = True
@@ -76,7 +87,7 @@ def bfs(alphabet: list[str], depth: int, on_transition: Callable[[list[str], lis
         frontier = nxt
         if not frontier:
             break
-    return {"states": len(seen), "transitions": transitions, "max_depth": maxdepth, "frontier_emptied": not frontier, "capped": capped}
+    info.update({"states": len(seen), "transitions": transitions, "max_depth": maxdepth, "frontier_emptied": not frontier, "capped": capped})
 
 
 ALPHABET_CORE = [
@@ -84,5 +95,5 @@ ALPHABET_CORE = [
     "}\n", "x = '''s\n", "t'''\n", "''' + 1\n", '"""\n', "'a\\\n", "b'\n", "x = 'a' \"b\"\n", "f'''a\n", "{b}\n", "{c\n", "!r}\n", ":>4}\n",
     "f'{a\n", "}'\n", "f'{a:\n", "f\"\"\"{\n", "a\r\n", "a \\\r\n", "if a:\n", "else:\n", "def f(a,\n", "b): pass\n", "1 + (2 #c\n", "a ; b\n",
     "$(ls\n", "-l)\n", "@(a\n", "![x\n", "f!(a,\n", "with! a:\n", "p'x'\n", "`g`\n", "r'''\\\n", "x = 1.5e3j + 0x1f\n", "a: int = b if c else d\n",
-    "a'\n", "\"\n", "\\a\n", "é = 'ü'\n", "a\n\n", ")", "a", "    ", "'''", "\\", "# c",
+    "a'\n", "\"\n", "\\a\n", "é = 'ü'\n", ")", "a", "    ", "'''", "\\", "# c",
 ]
